@@ -405,8 +405,43 @@ fn all_keymap_scenarios() -> Vec<String> {
     vec!["", "a", "a,b", "a,$$user_jose,b", "$$token,a", "a,b,$$permission_$x", "k1,k2,k3,k4,$$secret,k5"].into_iter().map(|x| x.to_string()).collect()
 }
 
+/// one FORCED interleaving of two `create-db` commands (sequential contracts cannot see lock orders): the first is inside add_database - it holds the table of databases for
+/// writing and is about to take the identifier table - when the second starts; both must finish and a third client must still be served (a lock order that differs between
+/// next_db_id and add_database wedges the node for every client)
+fn scenario_ids_lockorder() -> Result<Violations, String> {
+    let mut v: Violations = vec![];
+    let w = mk_world(0);
+    let dbs = w.dbs.clone();
+    let (tx, rx) = std::sync::mpsc::channel::<&'static str>();
+    let d1 = dbs.clone(); let t1 = tx.clone();
+    std::thread::spawn(move || {
+        // what add_database does: the table of databases first, then the identifier table
+        let m = d1.map.write().unwrap();
+        std::thread::sleep(std::time::Duration::from_millis(300));
+        let ids = d1.id_name_db_map.write().unwrap();
+        drop(ids); drop(m);
+        let _ = t1.send("first");
+    });
+    std::thread::sleep(std::time::Duration::from_millis(100));
+    let d2 = dbs.clone(); let t2 = tx.clone();
+    std::thread::spawn(move || {
+        let (mut c, mut crx) = Client::new_empty_and_receiver();
+        let w2 = World { dbs: d2 };
+        for l in ["auth u p", "create-db racer rt"] { run_cmd(&w2, &mut c, &mut crx, l); }
+        let _ = t2.send("second");
+    });
+    let mut done = 0;
+    while done < 2 { match rx.recv_timeout(std::time::Duration::from_secs(4)) { Ok(_) => done += 1, Err(_) => break } }
+    chk(&mut v, "C10.safety", done == 2);
+    if done == 2 {
+        let (mut c3, mut rx3) = Client::new_empty_and_receiver();
+        chk(&mut v, "C10.safety", !is_err(&run_cmd(&w, &mut c3, &mut rx3, "use-db d tok").0));
+    }
+    Ok(v)
+}
 fn scenario_ids(sc: &str) -> Result<Violations, String> {
     // sc = comma separated ids of pre-existing databases, e.g. "2" or "1,3"
+    if sc == "lockorder" { return scenario_ids_lockorder(); }
     let dbs = mk_dbs();
     let mut v: Violations = vec![];
     for (i, id) in sc.split(',').filter(|e| !e.is_empty()).enumerate() {
@@ -424,6 +459,7 @@ fn scenario_ids(sc: &str) -> Result<Violations, String> {
 fn all_ids_scenarios() -> Vec<String> {
     let mut out = vec!["".to_string()];
     for a in 1..6 { out.push(format!("{}", a)); for b in 1..6 { if a != b { out.push(format!("{},{}", a, b)); } } }
+    out.push("lockorder".to_string());
     out
 }
 
